@@ -4,6 +4,7 @@
 From Coq Require Import List NArith ZArith Bool.
 Import ListNotations.
 Require Import Verif.Lib.Wire Verif.Lib.C20Types Verif.Gen.Facts_C20.
+Require Verif.Model.C04.
 
 (* An introspectable object.  [iid] is object identity; [ifp] stands for the
    dict content (Introspectable subclasses dict: == compares content only,
@@ -189,6 +190,16 @@ Fixpoint register_all (s : st) (l : list (intr * list relop)) : res st :=
 Definition commit_register (introspection : bool) (s : st) (executed : list (list (intr * list relop))) : res st :=
   if introspection then register_all s (concat executed) else Ok s.
 
+(* ---- composed with the C04 commit model: execute_actions registers the
+   introspectables of an action right after its callable ran, so what is
+   registered follows the Run events of the commit log, whatever the final
+   outcome (done, conflict, refusal) *)
+Definition run_ids (evs : list C04.event) : list N :=
+  flat_map (fun e => match e with C04.Run a => [a] | C04.Force _ => [] end) evs.
+Definition commit_and_register (introspection : bool) (acts : list C04.action)
+           (intrs_of : N -> list (intr * list relop)) : res st :=
+  commit_register introspection init (map intrs_of (run_ids (snd (C04.commit acts)))).
+
 (* ---- operations of the correspondence run *)
 Inductive op :=
 | OAdd (i : intr) | OGet (c d : text) | OCategory (c : text) | ORelate (ps : list (text * text))
@@ -296,12 +307,46 @@ Definition get_op (v : val) : option op :=
   | _ => None
   end.
 
+Definition get_action (v : val) : option C04.action :=
+  match v with
+  | VL [VI a; d; p; VI o] =>
+      olet d := get_opt get_N d in olet p := get_texts p in
+      Some (C04.mkA (Z.to_N a) (C04.Eager d) p (Some o) [])
+  | _ => None
+  end.
+Definition get_intrs (v : val) : option (N * list (intr * list relop)) :=
+  match v with
+  | VL [VI a; l] =>
+      olet l := get_list_of (fun x => match x with
+                                      | VL [i; rs] => olet i := get_intr i in olet rs := get_list_of get_relop rs in Some (i, rs)
+                                      | _ => None end) l in
+      Some (Z.to_N a, l)
+  | _ => None
+  end.
+Fixpoint assocN {B} (k : N) (l : list (N * B)) : option B :=
+  match l with [] => None | (k', v) :: r => if N.eqb k k' then Some v else assocN k r end.
+Definition put_outcome (o : C04.outcome) : val :=
+  match o with C04.Done => VI 0 | C04.Conflict _ => VI 1 | C04.Late _ _ => VI 2 | _ => VI 3 end.
+Definition all_entries (s : st) : val :=
+  VL (flat_map (fun c => match get_category s c with
+                         | Some l => map (fun e => VL [VT c; VT (idisc (fst e)); VT (ifp (fst e))]) l
+                         | None => [] end) (sorted_texts (map fst (cats s)))).
+
 (* case = [0; ops]  -> list of per-op results
    case = [1]       -> [tables_ok] *)
 Definition run_C20 (v : val) : val :=
   ret_or_bad (
     match v with
     | VL [VI 0%Z; ops] => olet ops := get_list_of get_op ops in Some (VL (run_ops init ops))
+    | VL [VI 2%Z; intro; acts; intrs] =>
+        olet intro := get_bool intro in olet acts := get_list_of get_action acts in
+        olet intrs := get_list_of get_intrs intrs in
+        let intrs_of := fun a => match assocN a intrs with Some l => l | None => [] end in
+        Some (VL [put_outcome (fst (C04.commit acts));
+                  match commit_and_register intro acts intrs_of with
+                  | Ok s => all_entries s
+                  | Err e => put_err e
+                  end])
     | VL [VI 1%Z] => Some (VL [vbool tables_ok; vbool documented_ok;
                            VL (map (fun ck => VL [VT (fst ck); VT (snd ck)]) undocumented_missing)])
     | _ => None
